@@ -105,7 +105,7 @@ func runEpochs(r *hx.R, n int, w *hx.W, _ []string) error {
 				curStart := int64(0)
 				if r.Chance(1, 5) { // an already-counting epoch, as an imported genesis would have
 					started = true
-					cur = uint64(r.Range(1, 9))
+					cur = uint64(r.Range(0, 9)) // (0: an epoch that counts from zero, as a hand-written genesis may have it)
 					curStart = r.Range(1, now)
 				}
 				ch := r.Range(0, 5)
